@@ -78,27 +78,54 @@ theorem multiNew_ok (ds w : List Bytes) :
   rw [multiNewLoop_ok]
   simp
 
-/-- a base domain that the host belongs to is a suffix of the host -/
+/-- overlap once ASCII case is ignored — the notion that matters for the (case-insensitive)
+    resolution of hosts -/
+def OverlapCI (a b : Bytes) : Prop := Overlap (toAsciiLower a) (toAsciiLower b)
+
+theorem toAsciiLower_length (s : Bytes) : (toAsciiLower s).length = s.length := by
+  simp [toAsciiLower]
+
+theorem toAsciiLower_append (a b : Bytes) : toAsciiLower (a ++ b) = toAsciiLower a ++ toAsciiLower b := by
+  simp [toAsciiLower]
+
+theorem eqIgnoreAsciiCase_iff (a b : Bytes) : eqIgnoreAsciiCase a b = true ↔ toAsciiLower a = toAsciiLower b := by
+  simp [eqIgnoreAsciiCase]
+
+theorem stripSuffixIgnoreAsciiCase_some {s suf r : Bytes} (h : stripSuffixIgnoreAsciiCase s suf = some r) :
+    ∃ t, s = r ++ t ∧ toAsciiLower t = toAsciiLower suf := by
+  unfold stripSuffixIgnoreAsciiCase at h
+  split at h
+  · cases h
+  · simp only at h
+    split at h
+    · cases h
+    · split at h
+      · rename_i heq
+        injection h with h
+        refine ⟨s.drop (s.length - suf.length), ?_, (eqIgnoreAsciiCase_iff _ _).mp heq⟩
+        rw [← h, List.take_append_drop]
+      · cases h
+
+/-- a base domain that the host belongs to is, case ignored, a suffix of the host -/
 theorem suffix_of_parseHostHeader {base host : Bytes} {vh : VirtualHost}
-    (h : parseHostHeader base host = some vh) : base <:+ host := by
+    (h : parseHostHeader base host = some vh) : toAsciiLower base <:+ toAsciiLower host := by
   unfold parseHostHeader at h
-  by_cases he : host = base
-  · rw [he]; exact List.suffix_refl _
+  by_cases he : eqIgnoreAsciiCase host base = true
+  · rw [(eqIgnoreAsciiCase_iff _ _).mp he]; exact List.suffix_refl _
   · rw [if_neg he] at h
-    cases hs : stripSuffix base host with
+    cases hs : stripSuffixIgnoreAsciiCase host base with
     | none => rw [hs] at h; simp at h
     | some r =>
-      unfold stripSuffix at hs
-      by_cases hsuf : base.isSuffixOf host = true
-      · exact List.isSuffixOf_iff_suffix.mp hsuf
-      · rw [if_neg hsuf] at hs; cases hs
+      obtain ⟨t, rfl, ht⟩ := stripSuffixIgnoreAsciiCase_some hs
+      rw [toAsciiLower_append, ← ht]
+      exact List.suffix_append _ _
 
 theorem overlap_of_both_match {d1 d2 host : Bytes} {v1 v2 : VirtualHost}
     (h1 : parseHostHeader d1 host = some v1) (h2 : parseHostHeader d2 host = some v2) :
-    Overlap d1 d2 := by
+    OverlapCI d1 d2 := by
   have s1 := suffix_of_parseHostHeader h1
   have s2 := suffix_of_parseHostHeader h2
-  by_cases hl : d1.length ≤ d2.length
+  by_cases hl : (toAsciiLower d1).length ≤ (toAsciiLower d2).length
   · exact Or.inl (List.suffix_of_suffix_length_le s1 s2 hl)
   · exact Or.inr (List.suffix_of_suffix_length_le s2 s1 (by omega))
 
@@ -116,14 +143,24 @@ theorem pairwise_forall {R : Bytes → Bytes → Prop} (hs : ∀ a b, R a b → 
       · exact hs _ _ (hp.1 a ha')
       · exact ih hp.2 ha' hb'
 
-/-- among pairwise non-overlapping domains at most one matches a host -/
-theorem unique_match {ds : List Bytes} (hp : ds.Pairwise (fun a b => ¬ Overlap a b))
+/-- among domains that do not overlap even with case ignored, at most one matches a host -/
+theorem unique_match {ds : List Bytes} (hp : ds.Pairwise (fun a b => ¬ OverlapCI a b))
     {d1 d2 host : Bytes} {v1 v2 : VirtualHost} (m1 : d1 ∈ ds) (m2 : d2 ∈ ds)
     (h1 : parseHostHeader d1 host = some v1) (h2 : parseHostHeader d2 host = some v2) : d1 = d2 := by
   by_cases he : d1 = d2
   · exact he
   · exact absurd (overlap_of_both_match h1 h2)
-      (pairwise_forall (fun a b h hba => h hba.symm) hp m1 m2 he)
+      (pairwise_forall (fun a b h hba => h (Overlap.symm hba)) hp m1 m2 he)
+
+/-- for a configuration written in lower case, the code's (case-sensitive) overlap test is the
+    case-insensitive one -/
+theorem pairwiseCI_of_lower {ds : List Bytes} (hl : ∀ d ∈ ds, toAsciiLower d = d)
+    (hp : ds.Pairwise (fun a b => ¬ Overlap a b)) : ds.Pairwise (fun a b => ¬ OverlapCI a b) := by
+  refine hp.imp_of_mem ?_
+  intro a b ha hb h hci
+  unfold OverlapCI at hci
+  rw [hl a ha, hl b hb] at hci
+  exact h hci
 
 theorem firstMatch_some {ds : List Bytes} {host : Bytes} {vh : VirtualHost}
     (h : firstMatch ds host = some vh) : ∃ d ∈ ds, parseHostHeader d host = some vh := by
@@ -149,7 +186,7 @@ theorem firstMatch_none {ds : List Bytes} {host : Bytes} :
     | none => simp [hb, ih]
 
 /-- with pairwise non-overlapping domains, the first match is *the* match -/
-theorem firstMatch_eq_of_mem {ds : List Bytes} (hp : ds.Pairwise (fun a b => ¬ Overlap a b))
+theorem firstMatch_eq_of_mem {ds : List Bytes} (hp : ds.Pairwise (fun a b => ¬ OverlapCI a b))
     {d host : Bytes} {vh : VirtualHost} (hd : d ∈ ds) (hm : parseHostHeader d host = some vh) :
     firstMatch ds host = some vh := by
   cases hf : firstMatch ds host with
@@ -161,10 +198,10 @@ theorem firstMatch_eq_of_mem {ds : List Bytes} (hp : ds.Pairwise (fun a b => ¬ 
     rw [hm'] at hm; exact hm
 
 /-- the answer of `MultiDomain::parse_host_header` does not depend on the order of the domains -/
-theorem multiParse_perm {ds ds' : List Bytes} (hp : ds.Pairwise (fun a b => ¬ Overlap a b))
+theorem multiParse_perm {ds ds' : List Bytes} (hp : ds.Pairwise (fun a b => ¬ OverlapCI a b))
     (hperm : ds'.Perm ds) (host : Bytes) : multiParse ds' host = multiParse ds host := by
-  have hp' : ds'.Pairwise (fun a b => ¬ Overlap a b) :=
-    (hperm.pairwise_iff (fun h hba => h hba.symm)).mpr hp
+  have hp' : ds'.Pairwise (fun a b => ¬ OverlapCI a b) :=
+    (hperm.pairwise_iff (fun h hba => h (Overlap.symm hba))).mpr hp
   unfold multiParse
   cases hf : firstMatch ds host with
   | none =>
